@@ -14,8 +14,10 @@ import (
 	"encoding/json"
 	"fmt"
 	"io"
+	"runtime"
 	"runtime/debug"
 	"strconv"
+	"sync"
 	"sync/atomic"
 	"time"
 	"unicode/utf8"
@@ -57,6 +59,17 @@ func replay(kind string, input json.RawMessage) (bool, string) {
 			return false, err.Error()
 		}
 		return replaySeq(seq)
+	}
+	if kind == "txscale" {
+		var in ScaleIn
+		if err := json.Unmarshal(input, &in); err != nil {
+			return false, err.Error()
+		}
+		key, why, out := checkScaleIn(in)
+		if why == "" {
+			return false, "serialises to well-formed structure-preserving JSON: " + clip(out)
+		}
+		return true, "[" + key + "] " + why + "\n output: " + clip(out)
 	}
 	if kind != "tx" {
 		return false, "unknown replay kind " + kind
@@ -1143,6 +1156,43 @@ func RunSynthetic(r *chk.Run) {
 		r.Set("synthetic_block6_name_words", fmt.Sprintf("%d words of <= %d symbols over {a, A, backquote, dot, space}", len(nameWords), maxLen))
 	}
 
+	// ---- block 7: scale: the shape fixed, one size swept over a lattice ----
+	var block7 int64
+	{
+		var c counters
+		ins := ScaleInputs(thorough)
+		for _, in := range ins {
+			if stop() {
+				break
+			}
+			in := in
+			c.evals++
+			key, why, out := checkScaleIn(in)
+			if why == "" {
+				continue
+			}
+			r.Report(chk.Violation{
+				Key:    key,
+				What:   fmt.Sprintf("scale case %s n=%d variant=%d procs=%d: %s; output %s", in.Kind, in.N, in.Variant, in.Procs, why, clip(out)),
+				Kind:   "txscale",
+				Replay: in,
+				Recheck: func() string {
+					k, w, _ := checkScaleIn(in)
+					if w == "" {
+						return ""
+					}
+					return k + ": " + w
+				},
+			})
+			if r.TooMany() {
+				break
+			}
+		}
+		block7 = c.evals
+		add(&c)
+		r.Set("synthetic_block7_scale", fmt.Sprintf("%d transactions: one value of n bytes (n = 2^k-1, 2^k, 2^k+1 for k = 12..17 (thorough ..21), 100000; ASCII, 2 / 3 / 4-byte characters behind 0..3 ASCII bytes, characters the encoder escapes, invalid bytes) as column data, as SQL and as a table name; transactions of n events (255 .. 16385, thorough .. 65537; rows events with a statement event every 50th) under GOMAXPROCS 1, 2, 3, 4 and the default; one event of n rows; one row of n columns", block7))
+	}
+
 	r.SetExhaustive(!cut.Load())
 	r.Eval(total.evals)
 	r.DistinctN(total.evals)
@@ -1182,4 +1232,143 @@ func RunSynthetic(r *chk.Run) {
 	r.Assume("strings that are not valid UTF-8 (names, SQL, data) are only required to keep the document well-formed and to stay JSON strings; the property demands verbatim rendering for valid UTF-8 only")
 	r.Assume("Query.Database and Query.Charset are not part of the JSON form and are not demanded by the property")
 	r.Assume("timestamps are rendered as the local time string of the process (time.Unix(ts,0).Local().String()); compared as such")
+}
+
+// ---- block 7: scale -------------------------------------------------------------
+
+// ScaleIn names one transaction of block 7 (the transaction itself can run to megabytes).
+type ScaleIn struct {
+	Kind    string `json:"kind"` // bigdata | bigsql | bigname | events | rows | cols
+	N       int    `json:"n"`
+	Variant int    `json:"variant"`
+	Procs   int    `json:"procs,omitempty"` // GOMAXPROCS while marshalling (0: unchanged)
+}
+
+var scaleUnits = []string{"a", "\u00e9", "\u6f22", "\U0001F600", "\"", "\\", "<", "\u2028", "\x00", "\xff", "\xe6\xbc"}
+
+// bigText is a text of exactly n bytes: Variant%4 ASCII bytes, then the unit
+// scaleUnits[Variant/4] repeated, then ASCII padding.
+func bigText(n, variant int) []byte {
+	unit := scaleUnits[(variant/4)%len(scaleUnits)]
+	out := make([]byte, 0, n)
+	for i := 0; i < variant%4 && len(out) < n; i++ {
+		out = append(out, byte('p'+i))
+	}
+	for len(out)+len(unit) <= n {
+		out = append(out, unit...)
+	}
+	for len(out) < n {
+		out = append(out, 'z')
+	}
+	return out
+}
+
+// ScaleInputs lists block 7.
+func ScaleInputs(thorough bool) []ScaleIn {
+	var out []ScaleIn
+	maxK := 17
+	if thorough {
+		maxK = 21
+	}
+	sizes := []int{100000}
+	for k := 12; k <= maxK; k++ {
+		sizes = append(sizes, 1<<k-1, 1<<k, 1<<k+1)
+	}
+	for _, n := range sizes {
+		for v := 0; v < 4*len(scaleUnits); v++ {
+			out = append(out, ScaleIn{Kind: "bigdata", N: n, Variant: v})
+			if v%4 < 2 {
+				out = append(out, ScaleIn{Kind: "bigsql", N: n, Variant: v})
+			}
+			if v%4 == 1 && n <= 1<<16+1 {
+				out = append(out, ScaleIn{Kind: "bigname", N: n, Variant: v})
+			}
+		}
+	}
+	counts := []int{255, 256, 257, 259, 1023, 1024, 1025, 1027, 4095, 4096, 4097, 4099, 8193, 16385}
+	if thorough {
+		counts = append(counts, 32769, 65535, 65537, 100003)
+	}
+	for _, n := range counts {
+		for _, procs := range []int{0, 1, 2, 3, 4} {
+			out = append(out, ScaleIn{Kind: "events", N: n, Procs: procs})
+		}
+		out = append(out, ScaleIn{Kind: "rows", N: n}, ScaleIn{Kind: "cols", N: n})
+	}
+	return out
+}
+
+func scaleSpec(in ScaleIn) *TxSpec {
+	tx := &TxSpec{NowFile: []byte(defFile), NowOff: 4, NextFile: []byte(defFile), NextOff: 1 << 30, Ts: 1600000009, Events: []EvSpec{}}
+	num := func(i int) string { return fmt.Sprintf("%d", i) }
+	switch in.Kind {
+	case "bigdata":
+		p := evParams{sh: shape{kind: kUpdate, rows: 1, cols: 2}, stype: 5, db: defDB, table: defTable, col: defCol, data: string(bigText(in.N, in.Variant)), mode: mValue, ctype: 252, ts: 1600000001}
+		tx.Events = append(tx.Events, mkEvent(&p))
+		q := evParams{sh: shape{kind: kInsert, rows: 1, cols: 1}, stype: 4, db: defDB, table: defTable, col: defCol, data: "after", mode: mValue, ctype: 3, ts: 1600000002}
+		tx.Events = append(tx.Events, mkEvent(&q))
+	case "bigsql":
+		p := evParams{sh: shape{sql: true}, stype: 4, db: defDB, table: defTable, sql: string(bigText(in.N, in.Variant)), ts: 1600000001}
+		tx.Events = append(tx.Events, mkEvent(&p))
+	case "bigname":
+		nm := string(bigText(in.N, in.Variant))
+		p := evParams{sh: shape{kind: kInsert, rows: 1, cols: 1}, stype: 4, db: nm[:in.N/2], table: nm, col: nm, data: "1", mode: mValue, ctype: 3, ts: 1600000001}
+		tx.Events = append(tx.Events, mkEvent(&p))
+	case "events":
+		for i := 0; i < in.N; i++ {
+			if i%50 == 49 {
+				p := evParams{sh: shape{sql: true}, stype: 9, db: defDB, table: "", sql: "set @x=" + num(i), ts: int64(1600000000 + i)}
+				tx.Events = append(tx.Events, mkEvent(&p))
+				continue
+			}
+			p := evParams{sh: shape{kind: kInsert + i%3, rows: 1, cols: 1 + i%2}, stype: []int{4, 6, 5}[i%3], db: defDB, table: "t" + num(i%7), col: "c" + num(i%5), data: num(i), mode: mValue, ctype: 3, ts: int64(1600000000 + i)}
+			if i%11 == 10 {
+				p.mode = mNil
+			}
+			tx.Events = append(tx.Events, mkEvent(&p))
+		}
+	case "rows":
+		p := evParams{sh: shape{kind: kInsert, rows: in.N, cols: 2}, stype: 4, db: defDB, table: defTable, col: defCol, data: "v", mode: mValue, ctype: 3, ts: 1600000001}
+		e := mkEvent(&p)
+		for i := range e.Values {
+			e.Values[i].Cols[0].Data = []byte(num(i))
+			if i%13 == 12 {
+				e.Values[i].Cols[1].Data, e.Values[i].Cols[1].DataNil = nil, true
+			}
+		}
+		tx.Events = append(tx.Events, e)
+	case "cols":
+		p := evParams{sh: shape{kind: kDelete, rows: 1, cols: in.N}, stype: 6, db: defDB, table: defTable, col: defCol, data: "v", mode: mValue, ctype: 3, ts: 1600000001}
+		e := mkEvent(&p)
+		for i := range e.Identifies[0].Cols {
+			e.Identifies[0].Cols[i].Name = []byte("c" + num(i))
+			e.Identifies[0].Cols[i].Data = []byte(num(i * 3))
+		}
+		tx.Events = append(tx.Events, e)
+	default:
+		return nil
+	}
+	return tx
+}
+
+var scaleProcsMu sync.Mutex
+
+func checkScaleIn(in ScaleIn) (key, why, out string) {
+	s := scaleSpec(in)
+	if s == nil {
+		return "scenario", "unknown scale kind " + in.Kind, ""
+	}
+	if in.Procs > 0 {
+		scaleProcsMu.Lock()
+		defer scaleProcsMu.Unlock()
+		defer runtime.GOMAXPROCS(runtime.GOMAXPROCS(in.Procs))
+	}
+	tx := s.Build()
+	if key, why, out = check(s, tx); why != "" {
+		return
+	}
+	if in.Variant%2 == 0 {
+		return checkAgain(tx)
+	}
+	return
 }
